@@ -87,8 +87,8 @@ class TranslateError(Exception):
 
 
 STR, INT, BOOL, PAT, PATS, DYN, NONE, MATCH = "str", "int", "bool", "pat", "pats", "dyn", "none", "match"
-ITEM, KEYS, VERSION, OTABLE, OENTRY, OEX, FLOATV, REGEX, TPL, ARR, CURVE, SAMPLE = \
-    "item", "keys", "version", "otable", "oentry", "oex", "floatv", "regex", "tpl", "arr", "curve", "sample"
+ITEM, KEYS, VERSION, OTABLE, OENTRY, OEX, FLOATV, REGEX, TPL, ARR, CURVE, SAMPLE, SECTION = \
+    "item", "keys", "version", "otable", "oentry", "oex", "floatv", "regex", "tpl", "arr", "curve", "sample", "section"
 
 
 def LIST(t):
@@ -115,7 +115,7 @@ SIMPLE_TYPE = {STR: "list N", INT: "Z", BOOL: "bool", PAT: "list frag", PATS: "l
                ITEM: "py_item V", KEYS: "py_keys", VERSION: "las_version",
                OTABLE: "list ((las_version * list N) * order_entry)", OENTRY: "order_entry",
                OEX: "(item_order * list (list N))", FLOATV: "F", REGEX: "re", TPL: "list tpl", ARR: "A", CURVE: "C",
-               SAMPLE: "Smp"}
+               SAMPLE: "Smp", SECTION: "(bool * list (py_item V))"}
 
 
 def is_type(ty, kind):
@@ -500,9 +500,12 @@ class Tr:
             if isinstance(n.value, ast.Name) and n.value.id not in env:
                 self.err(n, "unsupported attribute access")
             v = self.expr(n.value, env)
+            if v.ty == SECTION and n.attr.isupper() and "SectionItems.__getitem__" in REGISTRY:
+                # section.NAME is section["NAME"] (SectionItems.__getattr__; AttributeError / KeyError: None)
+                r = REGISTRY["SectionItems.__getitem__"]
+                return self.partial_op([v], lambda c: "%s (fst (%s)) (snd (%s)) %s" % (r["coq"], c[0], c[0], cstr(n.attr)), ITEM,
+                                       exc="AttributeError")
             if v.ty == ITEM and n.attr in ITEM_ATTRS:
-                if ITEM_ATTRS[n.attr] == DYN:
-                    self.uses_dyn = True
                 return self.strict([v], lambda c: "it_%s (%s)" % (n.attr, c[0]), ITEM_ATTRS[n.attr])
             if v.ty == ITEM and n.attr == "useful_mnemonic" and "HeaderItem.useful_mnemonic" in REGISTRY:
                 # a property: the translated property function applied to the attribute it reads
@@ -765,6 +768,10 @@ class Tr:
         if isinstance(op, (ast.In, ast.NotIn)):
             if a.ty == STR and b.ty == STR:
                 return self.strict([a, b], lambda c: wrap("pyo_in (%s) (%s)" % (c[0], c[1])), BOOL)
+            if a.ty == STR and b.ty == SECTION and "SectionItems.__contains__" in REGISTRY:
+                # name in section: the translated SectionItems.__contains__ on the section's flag and items
+                r = REGISTRY["SectionItems.__contains__"]
+                return self.strict([b, a], lambda c: wrap("%s (fst (%s)) (snd (%s)) (%s)" % (r["coq"], c[0], c[0], c[1])), BOOL)
             if is_type(b.ty, "dict") and a.ty == b.ty[1]:
                 pre = self.dict_prefix(b.ty, n)
                 return self.strict([b, a], lambda c: wrap("pyo_is_some (%s_item (%s) (%s))" % (pre, c[0], c[1])), BOOL)
@@ -1835,7 +1842,7 @@ class Tr:
         binders = []
         if needs_ops:
             binders.append("{V : Type} (ops : dyn_ops V)")
-        elif any(mentions(t, (DYN, ITEM)) for t in all_tys):
+        elif any(mentions(t, (DYN, ITEM, SECTION)) for t in all_tys):
             binders.append("{V : Type}")
         for b in spec.get("extra_binders", []):
             binders.append(b[0])
@@ -2316,6 +2323,12 @@ SPECS += [
          const_exprs={"textwrap.TextWrapper(width=data_width, break_long_words=False, break_on_hyphens=False)": ("v_data_width", INT),
                       "twrapper.wrap(depth_slice)": ("w_wrap wops v_twrapper v_depth_slice", LIST(STR))},
          local_calls=("get_column_fmt", "get_left_spacing", "format_data_section_line")),
+    dict(py="read", file="las.py", cls="LASFile", coq="py_update_steering", translator=BlockTr,
+         anchor_if='section_title[1].upper() == "V"', length=2,
+         result="(provisional_version, provisional_wrapped, provisional_null, provisional_delimiter)",
+         params=[("section_title", STR), ("sct_items", SECTION), ("provisional_version", DYN), ("provisional_wrapped", DYN),
+                 ("provisional_null", DYN), ("provisional_delimiter", DYN)],
+         ret=TUPLE(DYN, DYN, DYN, DYN)),
     dict(py="_json_value", file="las.py", cls=None, coq="py_json_value",
          params=[("x", DYN)], ret=DYN, extra_binders=[("(jops : json_ops V)", "jops")],
          const_exprs={"isinstance(x, np.integer)": ("j_is_np_integer jops v_x", BOOL),
@@ -2327,6 +2340,57 @@ SPECS += [
          params=[("section_name", None), ("items", LIST(ITEM)), ("version", None), ("order_func", FUNC([STR], STR))],
          locals={"section_widths": DICT(STR, OPT(INT)), "middle_widths": LIST(INT)}, ret=DICT(STR, OPT(INT))),
 ]
+
+
+def binders_of(stmts, name, into_classes=False):
+    """the statements of a module / class body (looking into if / try / with / for / while blocks, not into
+    functions) that bind `name`"""
+    found = []
+    for st in stmts:
+        if isinstance(st, (ast.FunctionDef, ast.AsyncFunctionDef, ast.ClassDef)):
+            if st.name == name:
+                found.append(st)
+            continue
+        if isinstance(st, (ast.Import, ast.ImportFrom)):
+            if any((a.asname or a.name.split(".")[0]) == name for a in st.names):
+                found.append(st)
+            continue
+        for x in ast.walk(st):
+            if isinstance(x, ast.Name) and isinstance(x.ctx, (ast.Store, ast.Del)) and x.id == name:
+                found.append(st)
+                break
+        for field in ("body", "orelse", "finalbody", "handlers"):
+            sub = getattr(st, field, None)
+            if isinstance(sub, list):
+                for h in sub:
+                    found += binders_of(h.body if isinstance(h, ast.ExceptHandler) else [h], name)
+    return found
+
+
+def check_not_rebound(tree, spec, fn):
+    """the translated function must be what its name means at run time: no second binding of the name in its
+    module / class, no assignment to Class.name or setattr(Class, "name", ..) at module level, no `global name`"""
+    name, cls = spec["py"], spec.get("cls")
+    scope = tree.body
+    if cls:
+        scope = [n for n in tree.body if isinstance(n, ast.ClassDef) and n.name == cls][0].body
+    others = [b for b in binders_of(scope, name) if b is not fn]
+    if spec.get("decorator") == "property":
+        others = [b for b in others if not (isinstance(b, ast.FunctionDef) and
+                                            [ast.unparse(d) for d in b.decorator_list] == ["%s.setter" % name])]
+    if others:
+        raise TranslateError("%s is bound again at line %d" % (name, others[0].lineno))
+    for x in ast.walk(tree):
+        if isinstance(x, (ast.Global, ast.Nonlocal)) and name in x.names and not cls:
+            raise TranslateError("`global %s` at line %d" % (name, x.lineno))
+        if cls and isinstance(x, ast.Attribute) and isinstance(x.ctx, (ast.Store, ast.Del)) and x.attr == name \
+                and isinstance(x.value, ast.Name) and x.value.id == cls:
+            raise TranslateError("%s.%s is assigned at line %d" % (cls, name, x.lineno))
+        if cls and isinstance(x, ast.Call) and isinstance(x.func, ast.Name) and x.func.id in ("setattr", "delattr") and x.args \
+                and isinstance(x.args[0], ast.Name) and x.args[0].id == cls:
+            raise TranslateError("setattr(%s, ...) at line %d" % (cls, x.lineno))
+    if cls and len([n for n in binders_of(tree.body, cls)]) != 1:
+        raise TranslateError("class %s is bound more than once" % cls)
 
 
 def find_function(tree, spec):
@@ -2360,9 +2424,10 @@ def render(repo):
         if path not in trees:
             trees[path] = ast.parse(open(path, encoding="utf-8").read())
         fn = find_function(trees[path], spec)
+        check_not_rebound(trees[path], spec, fn)
         tr = (spec.get("translator") or Tr)(spec)
-        out.append("(* ---- %s:%s%s (line %d) ---- *)" % (spec["file"], spec["cls"] + "." if spec.get("cls") else "",
-                                                          spec["py"], fn.lineno))
+        out.append("(* ---- %s:%s%s%s ---- *)" % (spec["file"], spec["cls"] + "." if spec.get("cls") else "", spec["py"],
+                                                 " / " + spec["coq"] if spec.get("translator") else ""))
         out.append(tr.function(fn))
         out.append("")
     return "\n".join(out)
